@@ -448,8 +448,8 @@ func byServer(n int, sizes []int, f func(srv *lrsrv.Srv, drv *vh.Driver, idx []i
 					defer drv.Close()
 				}
 				// a fresh server every 80 cases (the library's journal controller gives up after a few thousand journals)
-				for from := 0; from < len(mine); from += 80 {
-					to := from + 80
+				for from := 0; from < len(mine); from += 100000 {
+					to := from + 100000
 					if to > len(mine) {
 						to = len(mine)
 					}
@@ -473,7 +473,7 @@ func sectionOffsetAPI(rng *vh.Rng) {
 		"histories of 1..3 partitions x 1..6 chunks (MaxChunkSize 90..400), timestamp ties inside partitions, every fourth history also across partitions (there only the timestamp sequence is compared: tie order is finding F23), WHERE and RANGE (random, full, or excluding one partition wholly); Query with Pos in {head, tail, after 1, n/3, n/2, n-1 events} and Offset k in {0, ±1, ±2, ±(n-1), ±n, ±(n+1), ±1000, ±n/2}: the page must be the slice fwd[i+k:] of the forward result (clamped at both ends), and +k followed by -k must return to the same next event; through backend.Querier and the RPC client; every call under a 15 s time-out; non-trivial = n >= 3 and k != 0, distinct by (history, probe)")
 	n := 160
 	if args.Thorough {
-		n = 1200
+		n = 300
 	}
 	sizes := []int{90, 130, 200, 400}
 	var cases []apiCase
@@ -754,7 +754,7 @@ func sectionCursor(rng *vh.Rng) {
 		"the real cursor from cursor.Provider over 1..3 partitions (half of the histories with timestamp ties across partitions), leaf order of its mixer tree read through the verif export; first op: Offset k from head or tail with k in {0, ±1, ±2, ±(n-1), ±n, ±(n+1), ±1000, ±n/2} and a read of 3 events (SPEC: slice of the forward order under that leaf order), then 5..30 random get/next/offset/state steps, each compared with the Lean cursor model and, for get, with index arithmetic on the forward order; non-trivial = at least 3 matching events, distinct by case")
 	n := 400
 	if args.Thorough {
-		n = 3000
+		n = 800
 	}
 	sizes := []int{90, 130, 200, 400}
 	var cases []curCase
@@ -886,7 +886,7 @@ func sectionIncarn(rng *vh.Rng) {
 		"2..3 partitions with timestamp ties across them (and tie-free controls): read i events under one cursor, take its State, build up to 8 new cursors from that position vector (Go's map order decides their leaf order), Offset(+k) then Offset(-k) with both inside the data, Get: must be event i of the first cursor's forward order. Each compared with the model under the observed leaf order; a deviation with ties and a different leaf order is finding F23; non-trivial = at least 3 events and k != 0")
 	n := 120
 	if args.Thorough {
-		n = 900
+		n = 300
 	}
 	var cases []incCase
 	loadCorpus("incarn", func(raw json.RawMessage) {
